@@ -5,6 +5,7 @@ bracketing loop of `Thermodynamics.findCriticalTemperature` (thermodynamics.py:1
 The numerical work (RK45 steps, re-minimisation, Hessian eigenvalues, free-energy values) is NOT
 modelled: it enters as the sequence of step records the integrator produced and as a sign
 function.  What is modelled is which steps end up in the table, where the table stops, the
+table (including the rule that a step of rounding size replaces the previous point), the
 "possible temperature" range with its 2·dT safety margin and the genuine-disappearance flags, and
 which bracket is handed to the root finder.  Core Lean, numbers are `Rat`.
 -/
@@ -19,15 +20,28 @@ structure Step where
   tiny : Bool            -- ode.step_size < 1e-16·T0
   deriving Repr, DecidableEq
 
-/-- one direction of the loop: consume the step records in order; `acc` is `TList` (ascending order of insertion).
-A step is appended only if the minimum still exists (`eigPos`), the step is not tiny and `t` differs
-from the previously stored temperature; otherwise the loop breaks (freeEnergy.py:361-389). -/
-def runDirection : List Step → List Rat → List Rat
-  | [], acc => acc
-  | s :: rest, acc =>
+/-- one direction of the loop: consume the step records in order; `acc` is `TList` (ascending order of insertion),
+`dT` the maximal step of `tracePhase`.
+The loop breaks unless the minimum still exists (`eigPos`), the step is not tiny and `t` differs from the
+previously stored temperature (freeEnergy.py, "check if step size is still okay to continue").  A step that
+passes these tests and lies at rounding distance from the previously stored temperature,
+`|t − TList[-1]| < 1e-8·dT` (exact rational `dT / 100000000`), REPLACES the last stored point
+(`TList[-1] = ode.t; fieldList[-1] = ode.y; potentialEffList[-1] = potentialEffT; continue`); any other step
+is appended (`TList = np.append(TList, [ode.t])`).  Reason for the replace rule: the last RK45 step is cut to
+land on `t_bound` and may have rounding size; appending it would hand two almost coincident nodes to the
+cubic spline.  Note that the rule applies to ANY stored last point, also to the initial `T0` of the first
+direction (`TList = [T0]`), and that it needs `TList.size > 0`: the first step of the second direction
+(`TList` emptied) is always appended. -/
+def runDirection : List Step → List Rat → Rat → List Rat
+  | [], acc, _ => acc
+  | s :: rest, acc, dT =>
     if !s.eigPos then acc
     else if s.tiny || (acc.getLast? == some s.t) then acc
-    else runDirection rest (acc ++ [s.t])
+    else match acc.getLast? with
+      | some last =>
+        if (s.t - last).abs < dT / 100000000 then runDirection rest (acc.dropLast ++ [s.t]) dT
+        else runDirection rest (acc ++ [s.t]) dT
+      | none => runDirection rest (acc ++ [s.t]) dT
 
 structure Result where
   table : List Rat            -- abscissae handed to newInterpolationTableFromValues
@@ -48,8 +62,8 @@ def listMax (l : List Rat) (d : Rat) : Rat := l.foldl (fun a b => if a < b then 
 /-- `tracePhase` bookkeeping: `up` are the step records of direction 0 (towards TMax), `down` of
 direction 1 (towards TMin); TMin/TMax are the requested range after clamping. -/
 def tracePhase (T0 TMin TMax dT : Rat) (up down : List Step) : Except Err Result :=
-  let tUp := runDirection up [T0]                 -- TList starts as [T0]
-  let tDown := runDirection down []               -- emptied before the second direction
+  let tUp := runDirection up [T0] dT              -- TList starts as [T0]
+  let tDown := runDirection down [] dT            -- emptied before the second direction
   let full : Except Err (List Rat) :=
     if tDown.length > 1 then .ok (tDown.reverse ++ tUp)
     else if tUp.length ≤ 1 then .error .failedToTrace
